@@ -142,7 +142,7 @@ PROPS = {
     "C07": {
         "parts": [
             {"engine": "D", "crate": "d_node", "harnesses": [
-                {"name": "c07_scratchpad_seq", "covers": ["replaced", "kept"], "quick": {"max_paths": 10000, "timeout": 600}},
+                {"name": "c07_scratchpad_seq", "covers": ["replaced", "kept", "first_write_still_pending", "unpaid_update_refused_while_first_write_pending"], "quick": {"max_paths": 10000, "timeout": 600}},
                 {"name": "c07_union", "covers": ["transactions", "registers", "cross_kind"], "quick": {"max_paths": 1000, "timeout": 600}},
                 {"name": "c07_scratchpad_conc", "covers": ["settled", "replaced_by_a_delivery", "both_deliveries_stale"], "quick": {"max_paths": 100000, "timeout": 600},
                  "thorough": {"env": {"C07_CONC": 3}, "max_paths": 5000000, "timeout": 3400}},
@@ -393,7 +393,7 @@ PROPS = {
                  "quick": {"max_paths": 20000, "timeout": 600}, "thorough": {"env": {"C10_MAXCAP": 4}, "max_paths": 1000000, "timeout": 3400, "seeds": [0, 1]}},
                 {"name": "c10_burst", "covers": ["both_accepted"],
                  "quick": {"max_paths": 20000, "timeout": 600}, "thorough": {"env": {"C10_MAXCAP": 4, "C10_BURST": 3}, "max_paths": 1000000, "timeout": 3400}},
-                {"name": "c10_cleanup", "covers": ["applies", "not_applicable", "removed_some"],
+                {"name": "c10_cleanup", "covers": ["applies", "not_applicable", "removed_some", "removed_a_written_record"],
                  "quick": {"max_paths": 20000, "timeout": 600}},
                 {"name": "c10_metrics", "covers": ["with_range", "without_range", "held_key_updated_after_range_was_set", "held_key_removed_after_range_was_set", "new_key_put_after_range_was_set"],
                  "quick": {"max_paths": 50000, "timeout": 600}},
